@@ -992,6 +992,14 @@ impl<'a> Hist<'a> {
                             let post: BTreeMap<Key, (u64, usize)> = l.iter().map(|k| (*k as Key, (if *k == slot { plan.value } else { o.mid.get(*k as Key).map_or(0, |e| e.val) }, if *k == slot { plan.fp } else { o.mid.get(*k as Key).map_or(0, |e| e.fp) }))).collect();
                             if l.iter().all(|k| *k == slot || o.mid.get(*k as Key).is_some()) {
                                 let (p, sg, what) = classify_store("L2", &cfg, &o.mid, slot as Key, plan.value, plan.fp, now, &post);
+                                if o.why == Why::MissExpired && matches!(p.as_str(), "C04" | "C05") && !sg.contains("exceeded") {
+                                    // the call purged an expired entry and refilled it; entries younger
+                                    // than ttl disappeared although nothing had to be evicted
+                                    let mut parts: Vec<String> = sg.split('|').map(|x| x.to_string()).collect();
+                                    parts[0] = "C06".into();
+                                    parts[4] = format!("{}-on-refill-of-expired-key", parts[4]);
+                                    return Viol { prop: "C06".into(), sig: parts.join("|"), what: format!("{} (the call had just purged its own expired entry)", what), detail };
+                                }
                                 return Viol { prop: p, sig: sg, what, detail };
                             }
                         }
@@ -1277,7 +1285,9 @@ fn gen_op(g: &mut Gen, h: &Hist, n_actors: usize, focus: &str) -> Op {
         "C13" => (if any_ttl { 4 } else { 1 }, 12, 7, 10, 1),
         "C15" => (if any_ttl { 10 } else { 1 }, 4, 2, 3, 5),
         "C06" => (22, 1, 0, 1, 0),
-        "C14" | "C03" | "C09" | "C10" | "C11" | "C01" => (if any_ttl { 10 } else { 1 }, 2, 1, 1, 0),
+        // C03: statistics may be reset at any time without the cache forgetting anything
+        "C03" => (1, 0, 0, 0, 6),
+        "C14" | "C09" | "C10" | "C11" | "C01" => (if any_ttl { 10 } else { 1 }, 2, 1, 1, 1),
         _ => (if any_ttl { 12 } else { 1 }, 3, 1, 2, 1),
     };
     if focus == "C20" {
